@@ -94,7 +94,7 @@ Pool == << <<4, 2>>, <<2, 6, 4>>, <<6, 2>>, <<8>> >>
 ArrN(nd) == Plain(Fresh(SubSeq(DimNames, 1, nd), [i \in 1..nd |-> "i"], SubSeq(Pool, 1, nd), [i \in 1..nd |-> i], "f", 7, 100))
 OrdSubsets(n) == {p \in UNION {[1..m -> 1..n] : m \in 1..n} : \A i, j \in 1..Len(p) : i # j => p[i] # p[j]}
 
-NoIn == [op |-> "", a |-> <<>>, S |-> <<>>, form |-> "", insert |-> <<>>, groups |-> <<>>]
+NoIn == [op |-> "", a |-> <<>>, S |-> <<>>, form |-> "", insert |-> <<>>, groups |-> <<>>, pre |-> <<>>]   \* pre: dimensions flattened before a reshape
 Init == in = NoIn /\ out = <<>> /\ ph = 0
 
 \* two labelled singleton dimensions r, s and a longer one: reshape may drop one singleton and must keep the other's label
@@ -139,14 +139,31 @@ ChooseThreeGroups ==
                    [] w = 3 -> << <<a.dims[p[1]], a.dims[p[2]]>>, <<a.dims[p[3]]>>, <<"n", a.dims[p[4]]>> >>
        IN in' = [NoIn EXCEPT !.op = "reshape", !.a = a, !.groups = gs]
 
+\* reshape of an array that already carries a grouped axis (in.pre flattened first): the group kept under the same name and
+\* moved, next to a new singleton, merged with the remaining dimension
+ChoosePreGrouped ==
+  /\ ph = 0 /\ ph' = 1 /\ out' = out
+  /\ \E pre \in {<<2, 3>>, <<1, 2>>, <<3, 1>>, <<1, 3>>} : \E w \in 1..6 :
+       LET a == ArrN(3)
+           g == Gather(a.dims, pre)
+           r == <<CHOOSE d \in Rng(a.dims) : \A j \in 1..Len(g) : g[j] # d>>
+           gs == CASE w = 1 -> <<g, r>>
+                   [] w = 2 -> <<r, g>>
+                   [] w = 3 -> << <<"n">>, g, r>>
+                   [] w = 4 -> <<r, <<"n">>, g>>
+                   [] w = 5 -> <<g \o r>>
+                   [] w = 6 -> <<r \o g>>
+       IN in' = [NoIn EXCEPT !.op = "reshape", !.a = a, !.groups = gs, !.pre = pre]
+
 Apply ==
   /\ ph = 1 /\ ph' = 2 /\ in' = in
   /\ out' = IF in.op = "flatten"
             THEN LET f == Flatten(in.a, in.S, IF in.insert = <<>> THEN DefaultInsert(in.a, in.S) ELSE in.insert[1])
                  IN [r |-> f, back |-> UnflattenAll(f)]
-            ELSE LET r == Reshape(in.a, in.groups) IN [r |-> r, back |-> UnflattenAll(r)]
+            ELSE LET base == IF in.pre = <<>> THEN in.a ELSE Flatten(in.a, in.pre, DefaultInsert(in.a, in.pre))
+                     r == Reshape(base, in.groups) IN [r |-> r, back |-> UnflattenAll(r)]
   /\ (Emit => PrintT(ToJson([op |-> in.op, in |-> in, out |-> out'])))
-Next == Choose \/ ChooseTwoGroups \/ ChooseThreeGroups \/ Apply
+Next == Choose \/ ChooseTwoGroups \/ ChooseThreeGroups \/ ChoosePreGrouped \/ Apply
 Spec == Init /\ [][Next]_vars
 
 (* ---------- theorems ---------- *)
